@@ -45,6 +45,9 @@ def run(chk, repo, tier):
     from .common import Remap
     from .c06 import disjoint_rules
     disjoint_rules(Remap(chk, {'C06-f': 'C07-a'}), repo)
+    chk.clause('C07-i', 'the pointwise product with a plane: a one-element phasor inherits the shape and offset of the field (and vice versa); the product is taken on the overlap', 3)
+    from .c06 import product_rules
+    product_rules(chk, repo, 'C07-i')
     f, si = insert_stores(repo, TRUE)
     _, sc = insert_stores(repo, FALSE)
     n, ok, det = 0, True, ''
